@@ -18,6 +18,7 @@ package props
 import (
 	"bytes"
 	"fmt"
+	"hash/fnv"
 	"strings"
 
 	"github.com/biogo/biogo/alphabet"
@@ -97,7 +98,7 @@ func (l *c04seqLayout) finish() []byte {
 
 func (l *c04seqLayout) tagList() string {
 	var ts []string
-	for _, t := range []string{"wrap", "blank", "trail", "crlf", "nofinal", "buffer-multiple"} {
+	for _, t := range []string{"wrap", "blank", "trail", "crlf", "nofinal", "buffer-multiple", "boundary"} {
 		if l.tags[t] {
 			ts = append(ts, t)
 		}
@@ -250,7 +251,90 @@ func c04seqFastq(g *hx.Gen) {
 	g.Casef("fq4 %s %s %s %s", tmpl, l.tagList(), hx.Hex(a), hx.Hex(b))
 }
 
+// c04seqBoundary: physical lines (sequence line, quality line, header line) whose content is
+// exactly L bytes, L around one and two buffer sizes of bufio.NewReader, LF or CRLF, the long
+// line last (with and without its terminator) or followed by another record, through each of
+// the five io.Reader behaviours of sioSource (the record name is varied until the content
+// hash selects the wanted one).
+var c04seqBoundaryLens = []int{4094, 4095, 4096, 4097, 4098, 8190, 8191, 8192, 8193, 8194}
+
+func c04seqHashClass(data []byte) int {
+	h := fnv.New32a()
+	h.Write(data)
+	return int(h.Sum32() % 5)
+}
+
+func c04seqBoundary(g *hx.Gen) {
+	pool := sioLetterPool("DNA")
+	for _, L := range c04seqBoundaryLens {
+		for _, term := range []string{"\n", "\r\n"} {
+			for _, final := range []bool{true, false} {
+				for class := 0; class < 5; class++ {
+					for _, fastqStyle := range []bool{false, true} {
+						headerLong := g.Chance(0.2)
+						second := g.Chance(0.4)
+						for k := 0; ; k++ {
+							r := sioRec{name: fmt.Sprintf("n%d", k), letters: g.Letters(pool, L)}
+							if headerLong {
+								r.name = fmt.Sprintf("n%d", k) + string(g.Letters("abcXYZ019", L-1-len(fmt.Sprintf("n%d", k))))
+								r.letters = g.Letters(pool, g.Pick(0, 1, 50))
+							}
+							rs := []sioRec{r}
+							if second {
+								rs = append(rs, sioRec{name: "z", desc: "d e", letters: g.Letters(pool, 7)})
+							}
+							var lines [][]byte
+							enc := alphabet.Sanger
+							for i := range rs {
+								if fastqStyle {
+									rs[i].quals = sioQuals(g, enc, len(rs[i].letters))
+									q := make([]byte, len(rs[i].letters))
+									for j := range q {
+										q[j] = alphabet.Qphred(rs[i].quals[j]).Encode(enc)
+									}
+									lines = append(lines, sioHeader('@', rs[i]), rs[i].letters, []byte("+"), q)
+								} else {
+									lines = append(lines, sioHeader('>', rs[i]))
+									if len(rs[i].letters) > 0 {
+										lines = append(lines, rs[i].letters)
+									}
+								}
+							}
+							b := bytes.Join(lines, []byte(term))
+							if final {
+								b = append(b, term...)
+							}
+							if c04seqHashClass(b) != class && k < 60 {
+								continue
+							}
+							tags := "wrap,boundary"
+							if term == "\r\n" {
+								tags += ",crlf"
+							}
+							if !final {
+								tags += ",nofinal"
+							}
+							if fastqStyle {
+								if !final && len(rs[len(rs)-1].letters) == 0 {
+									break // an empty last quality line vanishes with the terminator: other family
+								}
+								a := sioWriteFastq(rs, "q", "DNA", enc, false)
+								g.Casef("fq4 %d %s %s %s", int(enc), tags, hx.Hex(a), hx.Hex(b))
+							} else {
+								a := sioWriteFasta(rs, "s", "DNA", 60)
+								g.Casef("fa4 %s %s %s", tags, hx.Hex(a), hx.Hex(b))
+							}
+							break
+						}
+					}
+				}
+			}
+		}
+	}
+}
+
 func c04seqGen(g *hx.Gen) {
+	c04seqBoundary(g)
 	n := g.Scale(8000, 150000)
 	for k := 0; k < n && !g.Done(); k++ {
 		if g.Chance(0.55) {
